@@ -30,6 +30,17 @@ STATE_ATTRS = {"_tracked_jobs": "tracked", "hashes": "hashes"}
 MUTATING_METHODS = {"update", "pop", "clear", "setdefault", "popitem", "__setitem__", "__delitem__"}
 
 
+class _LambdaMark:
+    """Stands for a lambda used as a callable value: calling it runs code that is already part of the enclosing function."""
+    key = "<lambda>"
+
+    def __repr__(self):
+        return "<lambda>"
+
+
+LAMBDA_MARK = _LambdaMark()
+
+
 class BoundFunc:
     """A function value with constant keyword arguments already bound (functools.partial)."""
     __slots__ = ("finfo", "extra")
@@ -358,6 +369,23 @@ class Resolver:
                 for n in live_nodes(finfo.node, consts):
                     if isinstance(n, ast.Assign) and any(isinstance(t, ast.Name) and t.id == expr.id for t in n.targets):
                         out.extend(self.callable_values(n.value, finfo, bindings, depth + 1))
+                    # loop variable over a collection of callables built in this function: `for f in fs:` / `for flag, f in pairs:`
+                    if isinstance(n, (ast.For, ast.AsyncFor)):
+                        pos = None
+                        if isinstance(n.target, ast.Name) and n.target.id == expr.id:
+                            pos = -1
+                        elif isinstance(n.target, (ast.Tuple, ast.List)):
+                            for i_, e_ in enumerate(n.target.elts):
+                                if isinstance(e_, ast.Name) and e_.id == expr.id:
+                                    pos = i_
+                        if pos is not None:
+                            for elt in self._collection_elements(n.iter, finfo, consts):
+                                if pos >= 0:
+                                    if isinstance(elt, (ast.Tuple, ast.List)) and pos < len(elt.elts):
+                                        elt = elt.elts[pos]
+                                    else:
+                                        continue
+                                out.extend(self.callable_values(elt, finfo, bindings, depth + 1))
                 return out
             return []
         if isinstance(expr, ast.IfExp):
@@ -402,13 +430,43 @@ class Resolver:
             canon = idx.canon(expr.value, expr._module) if isinstance(expr.value, (ast.Name, ast.Attribute)) else None
             obj = idx.lookup(canon) if canon else None
             if isinstance(obj, tuple) and obj[0] == "const" and isinstance(obj[2], ast.Dict):
+                # the key may be decided by the constants of this calling context: TABLE[bool(dry_run)], TABLE[dry_run], TABLE["x"]
+                key = Ellipsis
+                sl = expr.slice
+                if isinstance(sl, ast.Call) and isinstance(sl.func, ast.Name) and sl.func.id == "bool" and len(sl.args) == 1:
+                    sl = sl.args[0]
+                    wrap = bool
+                else:
+                    wrap = lambda x: x
+                if isinstance(sl, ast.Constant):
+                    key = wrap(sl.value)
+                elif isinstance(sl, ast.Name) and sl.id in bindings and not isinstance(bindings[sl.id], tuple):
+                    key = wrap(bindings[sl.id])
                 out = []
-                for v in obj[2].values:
+                for k_, v in zip(obj[2].keys, obj[2].values):
+                    if key is not Ellipsis and isinstance(k_, ast.Constant) and k_.value != key:
+                        continue
                     out.extend(self.callable_values(v, None, {}, depth + 1))
                 return out
             return []
         if isinstance(expr, ast.Lambda):
-            return []
+            # the lambda's own body is part of the enclosing function's nodes (walked there); as a value it adds no callee
+            return [(LAMBDA_MARK, ())]
+        return []
+
+    def _collection_elements(self, expr, finfo, consts):
+        """Element expressions of a list/tuple literal, or of a local list built by a literal plus .append(...) calls."""
+        if isinstance(expr, (ast.List, ast.Tuple)):
+            return list(expr.elts)
+        if isinstance(expr, ast.Name):
+            out = []
+            for n in live_nodes(finfo.node, consts):
+                if isinstance(n, ast.Assign) and any(isinstance(t, ast.Name) and t.id == expr.id for t in n.targets) and isinstance(n.value, (ast.List, ast.Tuple)):
+                    out.extend(n.value.elts)
+                if isinstance(n, ast.Call) and isinstance(n.func, ast.Attribute) and n.func.attr in ("append", "add") and isinstance(n.func.value, ast.Name) \
+                        and n.func.value.id == expr.id and n.args:
+                    out.append(n.args[0])
+            return out
         return []
 
     # ------------------------------------------------------------------ callees
@@ -624,8 +682,14 @@ class Resolver:
                 if name in tgt_names:
                     for c in ast.walk(n.value):
                         if isinstance(c, ast.Call) and isinstance(c.func, (ast.Name, ast.Attribute)):
-                            if self.index.canon(c.func, finfo.module) == "gwf.backends.base.discover_backends":
+                            cn = self.index.canon(c.func, finfo.module)
+                            if cn == "gwf.backends.base.discover_backends":
                                 return True
+                            callee = self.index.lookup(cn) if cn else None
+                            if isinstance(callee, FuncInfo) and callee.key != finfo.key and any(
+                                    isinstance(x, ast.Call) and isinstance(x.func, (ast.Name, ast.Attribute))
+                                    and self.index.canon(x.func, callee.module) == "gwf.backends.base.discover_backends" for x in walk_no_nested(callee.node)):
+                                return True  # e.g. factory = _load_backend_factory(name)
         return False
 
     # ------------------------------------------------------------------ primitive effects of one node
@@ -860,6 +924,8 @@ class Resolver:
                                 inherited.update(nb)
                                 nb = inherited
                             stack.append((callee, nb, chain + (callee.key,)))
+                        elif isinstance(callee, _LambdaMark):
+                            continue  # body already walked as part of the function that contains the lambda
                         elif callee.startswith(("unknown:", "param:")):
                             unresolved.append(f"{loc(n, fi.module)} {callee} in {fi.key}")
                     # callables passed as arguments to external functions may be invoked by them
